@@ -417,6 +417,12 @@ def segsAdvance : List Bytes → Nat → Option (List Bytes)
   | [], _ + 1 => none
   | c :: r, cnt => if cnt ≤ c.length then some (c.drop cnt :: r) else segsAdvance r (cnt - c.length)
 
+/-- a length taken from the payload the way the source does (`H3.Gen.WriteBuf.LenSrc`, read by the
+    translator from the `Frame::Data` arm of `Frame::encode` and from `WriteBuf::remaining`) -/
+def segsLenBy : LenSrc → List Bytes → Nat
+  | .remaining, cs => segsRemaining cs
+  | .chunkLen, cs => (segsChunk cs).length
+
 /-- `WriteBuf<B>` for a segmented `B` -/
 structure WBC where
   buf : Bytes
@@ -435,7 +441,7 @@ def WBC.ofWB (w : WB) (p : Option (List Bytes)) : WBC :=
 /-- `Frame::Data(b).encode`: `FrameType::DATA`, then `write_var(b.remaining())` -/
 def dataHeaderC (segs : List Bytes) : Option Bytes := do
   let t ← writeVar FRAME_DATA
-  let l ← writeVar (segsRemaining segs)
+  let l ← writeVar (segsLenBy DATA_LEN_SOURCE segs)
   pure (t ++ l)
 
 /-- `From<Frame<B>>` for `Frame::Data(segs)` -/
@@ -450,7 +456,7 @@ def fromPairDataC (ty : Nat) (segs : List Bytes) : Option WBC :=
 def WBC.pay (w : WBC) : List Bytes := w.payload.getD []
 
 /-- `Buf::remaining`. -/
-def WBC.remaining (w : WBC) : Nat := w.len - w.pos + segsRemaining w.pay
+def WBC.remaining (w : WBC) : Nat := w.len - w.pos + segsLenBy WRITEBUF_REMAINING_SOURCE w.pay
 
 /-- `Buf::chunk`: the rest of the header while there is one, then the payload's own `chunk()`. -/
 def WBC.chunk (w : WBC) : Bytes :=
